@@ -832,6 +832,21 @@ func c11ownership(c *Ctx, r *Report) {
 	}
 	var skip *int64
 	var skipAt token.Pos
+	guardsCount := map[ssa.Value]bool{}
+	{
+		cdc := cdCache{}
+		eachInstr(interp, func(in ssa.Instruction) {
+			bo, ok := in.(*ssa.BinOp)
+			if !ok || bo.Op != token.ADD || !isConstInt(bo.Y, 1) {
+				return
+			}
+			if phi, ok := bo.X.(*ssa.Phi); ok && phi.Comment == "count" {
+				for cond := range cdc.of(in) {
+					guardsCount[cond] = true
+				}
+			}
+		})
+	}
 	eachInstr(interp, func(in ssa.Instruction) {
 		b, ok := in.(*ssa.BinOp)
 		if !ok || (b.Op != token.NEQ && b.Op != token.EQL) {
@@ -845,8 +860,10 @@ func c11ownership(c *Ctx, r *Report) {
 		if !ok || call.Common().StaticCallee() != parse {
 			return
 		}
-		// the comparison that guards the whole interpretation: its block is the call's block
-		if b.Block() != call.Block() {
+		// the comparison that guards the whole interpretation: it sits in the call's block, or it is one of
+		// the conditions the counting of the parameter (count++) is control dependent on (the call and the
+		// test may be separate statements)
+		if b.Block() != call.Block() && !guardsCount[ssa.Value(b)] {
 			return
 		}
 		if k, isc := constIntVal(b.Y); isc && skip == nil {
